@@ -4,7 +4,7 @@ set -e
 cd "$(dirname "$0")"
 export CARGO_NET_OFFLINE=true
 python3 gen/s4gen.py >/dev/null || true
-(cd lean && for t in S4V drv drv_walk drv_print drv_cli drv_boxp drv_stream drv_time; do lake build $t || echo "setup: lake build $t failed (its checks will report it)"; done)
+(cd lean && for t in S4V drv drv_walk drv_print drv_cli drv_boxp drv_stream drv_time drv_patsel drv_frender drv_regex; do lake build $t || echo "setup: lake build $t failed (its checks will report it)"; done)
 python3 - <<'PY'
 import sys
 sys.path.insert(0, '.')
